@@ -96,6 +96,10 @@ func (e *Envelope) Sign(key Key) error {
 		return err
 	}
 
+	// Keep the signatures the envelope already carries: they are over the same
+	// payload, which only changes through SetPayload
+	env.Signatures = append(e.envelope.Signatures, env.Signatures...)
+
 	e.envelope = env
 	return nil
 }
